@@ -40,6 +40,9 @@ def main() -> int:
     except BaseException as e:  # noqa: BLE001
         status = "error"
         err = "".join(traceback.format_exception(type(e), e, e.__traceback__))
+    from . import explore as _ex
+    if _ex.RETRIES[0]:
+        acc.extra["executions_repeated_after_replay_divergence"] = _ex.RETRIES[0]
     d = acc.dump()
     d["status"], d["error"] = status, err
     with open(out, "w") as f:
